@@ -20,6 +20,7 @@ type c09Step struct {
 	Write map[string]string `json:"write,omitempty"` // path -> new content
 	Del   []string          `json:"delete,omitempty"`
 	Dirs  []string          `json:"mkdir,omitempty"`
+	Links map[string]string `json:"symlink,omitempty"` // path -> new link target (the link is replaced)
 }
 
 type c09Replay struct {
@@ -31,7 +32,14 @@ type c09Replay struct {
 
 func c09Project(r *gen.Rand) map[string]string {
 	return map[string]string{
-		"src/entry.ts":                  "import { a } from \"./a\";\nimport b from \"./b.js\";\nimport data from \"./data.json\";\nimport { Comp, K } from \"./comp\";\nimport pkg from \"pkg\";\nimport \"pkg/effect\";\nimport aliased from \"alias/thing\";\nimport { version } from \"helper.js\";\nconsole.log(a, b, data, Comp, new K(), pkg, aliased, version);\n",
+		"lib-a/index.js":                "module.exports = \"linked-lib-a\";\n",
+		"lib-b/index.js":                "module.exports = \"linked-lib-b\";\n",
+		"node_modules/linked.symlink":   "../lib-a",
+		"src/cfg-a.js":                  "export const cfg = \"cfg-a\";\n",
+		"src/cfg-b.js":                  "export const cfg = \"cfg-b\";\n",
+		"src/cfg.js.symlink":            "cfg-a.js",
+		"src/probe.js":                  "try { require(\"./a.js/\") } catch {}\ntry { require(\"./data.json/x\") } catch {}\n",
+		"src/entry.ts":                  "import \"./probe.js\";\nimport linked from \"linked\";\nimport { cfg } from \"./cfg.js\";\nconsole.log(linked, cfg);\nimport { a } from \"./a\";\nimport b from \"./b.js\";\nimport data from \"./data.json\";\nimport { Comp, K } from \"./comp\";\nimport pkg from \"pkg\";\nimport \"pkg/effect\";\nimport aliased from \"alias/thing\";\nimport { version } from \"helper.js\";\nconsole.log(a, b, data, Comp, new K(), pkg, aliased, version);\n",
 		"node_modules/helper.js":        "export const version = 1;\n",
 		"src/a.js":                      "export const a = \"a.js\";\n",
 		"src/b.js":                      "export default \"b-one\";\n",
@@ -51,7 +59,19 @@ func c09Project(r *gen.Rand) map[string]string {
 func c09Edit(r *gen.Rand, cur map[string]string) c09Step {
 	w := func(p, c string) c09Step { return c09Step{Write: map[string]string{p: c}} }
 	for tries := 0; tries < 20; tries++ {
-		switch r.Intn(18) {
+		switch r.Intn(20) {
+		case 18: // retarget a symlinked package directory
+			t := "../lib-b"
+			if cur["node_modules/linked.symlink"] == t {
+				t = "../lib-a"
+			}
+			return c09Step{Edit: "retarget symlink node_modules/linked -> " + t, Links: map[string]string{"node_modules/linked": t}}
+		case 19: // retarget a symlinked file
+			t := "cfg-b.js"
+			if cur["src/cfg.js.symlink"] == t {
+				t = "cfg-a.js"
+			}
+			return c09Step{Edit: "retarget symlink src/cfg.js -> " + t, Links: map[string]string{"src/cfg.js": t}}
 		case 0, 16, 17:
 			f := pickS(r, "src/a.js", "src/b.js", "src/t1.ts", "node_modules/pkg/index.js", "node_modules/helper.js", "node_modules/pkg/effect.js")
 			if c, ok := cur[f]; ok {
@@ -203,6 +223,13 @@ func applyStep(dir string, cur map[string]string, s c09Step) {
 		os.WriteFile(full, []byte(c), 0644)
 		cur[p] = c
 	}
+	for p, t := range s.Links {
+		full := filepath.Join(dir, p)
+		os.Remove(full)
+		os.MkdirAll(filepath.Dir(full), 0755)
+		os.Symlink(t, full)
+		cur[p+".symlink"] = t
+	}
 }
 
 func summarize(res api.BuildResult, dir string) string {
@@ -239,6 +266,12 @@ func c09Run(rep *Report, workdir string, class string, files map[string]string, 
 		cur[k] = v
 	}
 	writeTree(dir, cur)
+	for k, v := range cur { // "<path>.symlink" entries stand for symbolic links
+		if strings.HasSuffix(k, ".symlink") {
+			os.Remove(filepath.Join(dir, k))
+			os.Symlink(v, filepath.Join(dir, strings.TrimSuffix(k, ".symlink")))
+		}
+	}
 	mk := func() api.BuildOptions {
 		o := buildOptsFromName(optName, dir, []string{"src/entry.ts"}, "out")
 		return o
@@ -310,7 +343,7 @@ func c09Run(rep *Report, workdir string, class string, files map[string]string, 
 
 func init() {
 	searches["c09-history"] = func(r *gen.Rand, count int, workdir string, rep *Report) {
-		rep.Rule = "a project (TS entry, JS/TSX/JSON modules, tsconfig with jsx/paths/useDefineForClassFields, a node_modules package with main/exports/sideEffects) is built through one long-lived context; after each of 2-7 random edits (content incl. same-length, tsconfig and package.json fields, shadowing files, nearer node_modules, file<->directory, syntax error + repair, delete/recreate, rename, json named imports) ctx.Rebuild() is compared with a fresh api.Build of the same tree: output paths+bytes and diagnostics (text+location). non-trivial = a complete history"
+		rep.Rule = "a project (TS entry, JS/TSX/JSON modules, tsconfig with jsx/paths/useDefineForClassFields, a node_modules package with main/exports/sideEffects) is built through one long-lived context; after each of 2-7 random edits (content incl. same-length, tsconfig and package.json fields, shadowing files, nearer node_modules, file<->directory, syntax error + repair, delete/recreate, rename, json named imports, retargeting a symlinked package directory and a symlinked file) ctx.Rebuild() is compared with a fresh api.Build of the same tree: output paths+bytes and diagnostics (text+location). non-trivial = a complete history"
 		for i := 0; i < count; i++ {
 			gr := r.Fork()
 			opt := pickS(gr, "fmt=esm", "fmt=esm,ms", "fmt=cjs,platform=node", "fmt=esm,splitting", "fmt=esm,sourcemap=external", "fmt=iife,mi", "fmt=esm,metafile")
